@@ -123,6 +123,20 @@ def specRead (log : List Version) (asof : Option Int) : TS :=
     | none => logRows log
   (dates pubs).map fun d => (d, lastVal (group d pubs))
 
+/-- "the first value published" of one date: the fold of the publications that share the stamp of the
+    first one (later same-stamp versions override it, as they do for every read) -/
+def firstVal (rows : Store) : Option Int :=
+  match rows with
+  | [] => none
+  | r :: _ => lastVal (rows.filter (·.stamp == r.stamp))
+
+/-- what `bi_read(..., what=0)` must return as of `T` -/
+def specFirst (log : List Version) (asof : Option Int) : TS :=
+  let pubs := match asof with
+    | some T => (logRows log).filter (fun r => decide (r.stamp ≤ T))
+    | none => logRows log
+  (dates pubs).map fun d => (d, firstVal (group d pubs))
+
 /-- the store after merging the versions of `log` one by one, starting from `None` -/
 def history (log : List Version) : Option Store :=
   log.foldl (fun st v => some (biMerge st (Bi v.ts v.stamp))) none
